@@ -82,13 +82,20 @@ def is_std_qubit_basis(basis):
 
 
 # ------------------------------------------------------------------ generators
-BASIS_CLASSES = ['pauli', 'ggm', 'relabelled', 'partial', 'nontraceless', 'mislabelled']
+BASIS_CLASSES = ['pauli', 'ggm', 'relabelled', 'partial', 'nontraceless', 'mislabelled', 'permuted']
 
 
 def make_basis(r, d, kind):
     if kind == 'relabelled':           # Pauli / GGM elements, label 'Custom' -> general branch
         b = ff.Basis.pauli(1) if d == 2 else ff.Basis.ggm(d)
         return ff.Basis(b.view(np.ndarray).copy(), btype='Custom')
+    if kind == 'permuted':             # Pauli / GGM elements with the identity element NOT first, default label
+        b = (ff.Basis.pauli(1) if d == 2 else ff.Basis.ggm(d)).view(np.ndarray)
+        k = int(r.integers(1, len(b)))
+        perm = list(range(1, k + 1)) + [0] + list(range(k + 1, len(b)))
+        if r.random() < 0.5:
+            perm = list(range(1, len(b))) + [0]          # (X, Y, Z, 1)/sqrt2
+        return ff.Basis(b[perm].copy())
     if kind == 'mislabelled':          # complete non-traceless basis carrying the label 'Pauli'
         b = gen.make_basis(r, d, 'nontraceless')
         return ff.Basis(b.view(np.ndarray).copy(), btype='Pauli')
@@ -99,9 +106,9 @@ def make_case(r, thorough, i):
     if thorough:
         d = int([2, 2, 3, 2, 4, 3][i % 6])
     else:
-        d = int([2, 2, 3, 2, 2, 3, 4][i % 7])
+        d = int([2, 2, 3, 2, 2, 3, 4, 2][i % 8])
     bk = BASIS_CLASSES[i % len(BASIS_CLASSES)]
-    if bk == 'mislabelled':
+    if bk in ('mislabelled', 'permuted'):
         d = 2
     G = int(r.integers(1, 4))
     nn = int(r.integers(1, 4)) if d < 4 else int(r.integers(1, 3))
@@ -288,7 +295,7 @@ def rebuild(inp):
 
 
 def run(ctx):
-    n_tot = 84 if ctx.thorough else 21
+    n_tot = 84 if ctx.thorough else 28
     n_pc = 12 if ctx.thorough else 4
     r = ctx.rng(9)
     failures, samples, classes, cases = [], [], {}, []
